@@ -62,7 +62,7 @@ EXC = {
     "AssertionError": lambda: AssertionError("cb"),
 }
 LEVEL_MAX = {"LONG": (31, 7, 255), "SHORT": (31, 2047), "FREE": (65535,)}
-IBODIES = ["alpha", "alpha1", "beta", "b", "a.b", "x_y", "alp", "alphabet"]
+IBODIES = ["alpha", "alpha1", "beta", "b", "a.b", "x_y", "alp", "alphabet", "Alpha", "ALPHA", "Beta", "B", "aLp"]  # letter case distinguishes internal addresses
 
 
 # --------------------------------------------------------------------------
